@@ -407,7 +407,8 @@ func genCurl() {
 	// loops `for i := 0; i < tritsCount; i += 243` are translated under the assumption that i += 243 does not wrap; the
 	// tie proves it from the guard tritsCount % 243 == 0 that precedes them.  Squeeze replaces every row of dst by a
 	// fresh make before anything is written into it, so the rows share nothing.
-	codeFns := []string{"bool2int", "sBox", "Curl.in", "Curl.out", "Curl.Reset", "Curl.CopyState!disjoint", "transformGeneric!disjoint"}
+	codeFns := []string{"bool2int", "sBox", "Curl.in", "Curl.out", "Curl.Reset", "Curl.CopyState!disjoint", "transformGeneric!disjoint",
+		"Curl.transform!abstract=l+h", "Curl.Absorb!nowrap", "Curl.Squeeze!nowrap"}
 	g.raw(translateLoopFuncsNS(p, "code", codeFns...))
 	for _, n := range codeFns {
 		if !strings.Contains(n, "!abstract") {
@@ -415,7 +416,7 @@ func genCurl() {
 		}
 	}
 	checkDistinctArrays(p)
-	g.src(p, "NewCurlP81", "Curl.Clone", "Curl.Absorb", "Curl.Squeeze", "Curl.transform")
+	g.src(p, "NewCurlP81", "Curl.Clone", "Curl.transform")
 	// build-tag selection of the permutation
 	g.def("buildTagAsm", "String", leanString(buildConstraint(filepath.Join(*repo, "pkg/curl/transform_amd64.go"))))
 	g.def("buildTagNoasm", "String", leanString(buildConstraint(filepath.Join(*repo, "pkg/curl/transform_noasm.go"))))
